@@ -7,7 +7,7 @@ From Coq Require Import List ZArith Bool.
 From RtoscV Require Import Match.PatSpec Match.MatchModel Ports.NameModel Ports.PathModel Ports.WalkModel
      Ports.WalkProofs Ports.WalkRegress Ports.DecProofs Ports.EnumProofs
      Ports.DispatchModel Ports.DispatchProofs Ports.TreeProofs Ports.DispatchWalk
-     Ports.LookupGen Ports.NamesModel Ports.NamesOk.
+     Ports.LookupGen Ports.NamesModel Ports.NamesOk Ports.SnipRegress.
 Import ListNotations.
 Local Open Scope Z_scope.
 
@@ -125,7 +125,8 @@ Proof. exact ex_wf_ok. Qed.
    tree_ok covers both), and matches = 1.  Composition of C09_enumerates with
    C05's matcher (path_complete) and C04's tree dispatch
    (C04_exactly_one_leaf).  Side conditions: names of the shape the macros
-   produce ([dok]: sub-tree ports one component "text/" or "text#N/", N < 10^9,
+   produce ([dok]: sub-tree ports one or more components "text/" or "text#N/"
+   - the recursion callbacks skip as many components as the name has -, N < 10^9,
    7-bit literal text without : { * #, no two '#N' adjacent, a leaf name does
    not end in '/'), and pairwise non-overlapping sibling names
    ([table_disjoint]: no message is matched by two ports of one table - the
@@ -156,11 +157,15 @@ Proof. exact ex_d_ok. Qed.
 
 (* The same with a DECIDABLE hypothesis in place of dok / table_disjoint:
    names_ok root = true (coq/Ports/NamesModel.v; evaluated on every generated
-   tree by the tie): names of the macro shape, literal text without digits, and
-   the keys of the ports of every table - the path part with each '#N' replaced
-   by '#' - pairwise not prefixes of one another.  table_disjoint follows by
-   C05's soundness direction (whatever a name matches spells it, C05_no_spurious)
-   and the shape of an address (its digit runs collapsed to '#'). *)
+   tree by the tie): names of the macro shape (sub-tree names of one or more
+   components; literal text may hold digits, the text behind a '#N' does not
+   begin with one), and no two ports of a table clash (NamesModel.clashb:
+   reading both path parts in step - literal characters must agree, '#N' against
+   '#M' goes on behind both - one name ends, or a '#N' meets a literal digit).  table_disjoint follows by
+   C05's soundness direction (whatever a name matches spells it, C05_no_spurious):
+   two names spelling comparable strings clash (NamesOk.clash_sound; two digit
+   runs at one place, each followed by a non-digit or the end, are equal or one
+   string ends there). *)
 Theorem C09_dispatchable_names_ok : forall hp tid root id a ty o,
   names_ok root = true -> tree_ok (to_tree hp tid root) ->
   forall out b, walk None (map render_port root) [] = WOk out b ->
@@ -190,20 +195,50 @@ Theorem C09_names_ok_nonvacuous :
   apropos (map render_port ex_names) [47; 99; 49; 49; 47; 120; 97] = AFound [2%nat; 0%nat].
 Proof. exact ex_names_ok. Qed.
 
-(* Observation (not a theorem about every tree): a multi-component sub-tree
-   name ("a/b/") paired with the macro recursion callback (rRecurCb, whose SNIP
-   strips ONE component) is walked as /a/b/x but dispatches to no leaf - the
-   shape C09_dispatchable excludes; names_ok is false on it.  Reproduced on the
-   real code: corpus/C09/defects.txt (kind X).  The macros themselves cannot
-   produce such a name (rRecur(name) stringifies a C identifier); a
-   hand-written callback that strips as many components as the name has (the
-   harness's kind M) dispatches them. *)
-Theorem C09_multicomponent_macro_refuted :
+(* A multi-component sub-tree name ("a/b/", "a#3/b#2/c/") paired with the macro
+   recursion callbacks (rRecurCb ...): since the commit "fix: the recursion
+   callbacks skipped one component of the message ..." SNIP skips as many
+   components as the matched name has, the walked addresses dispatch to the
+   reported leaf and names_ok accepts such names (structured by components),
+   so C09_dispatchable / C09_dispatchable_names_ok / C18_lookup cover them. *)
+Theorem C09_multicomponent_macro :
   walk None (map render_port ex_multi) [] = WOk [([0%nat; 0%nat], [47; 97; 47; 98; 47; 120])] [47] /\
   (let d := dispatch (to_tree no_hash_search one_id ex_multi) [47; 97; 47; 98; 47; 120] [] true 0 in
+   matches d = 1 /\ leaf_count (log d) = 1 /\ length (log d) = 2%nat) /\
+  names_ok ex_multi = true /\ names_ok ex_multi2 = true /\
+  (exists out b, walk None (map render_port ex_multi2) [] = WOk out b /\ length out = 138%nat /\
+                 In ([0%nat; 1%nat], [47; 97; 50; 47; 98; 49; 47; 99; 47; 118; 49; 47; 119; 49; 48]) out) /\
+  apropos (map render_port ex_multi2) [47; 97; 50; 47; 98; 49; 47; 99; 47; 118; 49; 47; 119; 49; 48] = AFound [0%nat; 1%nat].
+Proof. exact multicomponent_macro. Qed.
+
+(* regression witness: before that commit SNIP stripped ONE component: the
+   address /a/b/x the walk reports for { "a/b/" -> { "x" } } reached no leaf
+   (the inner table was handed "b/x"): matches = 0, no leaf callback.
+   Reproduced on the real code: corpus/C09/defects.txt. *)
+Theorem C09_multicomponent_macro_pinned_refuted :
+  walk None (map render_port ex_multi) [] = WOk [([0%nat; 0%nat], [47; 97; 47; 98; 47; 120])] [47] /\
+  (let d := dispatch_pinned (to_tree no_hash_search one_id ex_multi) [47; 97; 47; 98; 47; 120] [] true 0 in
    matches d = 0 /\ leaf_count (log d) = 0 /\ length (log d) = 1%nat) /\
-  names_ok ex_multi = false.
-Proof. exact multicomponent_macro_refuted. Qed.
+  (let d := dispatch (to_tree no_hash_search one_id ex_multi) [47; 97; 47; 98; 47; 120] [] true 0 in
+   matches d = 1 /\ leaf_count (log d) = 1 /\ length (log d) = 2%nat).
+Proof. exact multicomponent_macro_pinned_refuted. Qed.
+
+(* 'enabled by' naming a port inside the sub-tree it disables (sub/tg, arr#3/tg):
+   what a skipped sub-tree still reports is a port of its own table, at the
+   skipped sub-tree's own expanded address followed by that port's name *)
+Theorem C09_enabling_port_address : forall qn m sub b j a,
+  sub_toggle (Port qn m (Some sub)) b = Some (j, a) ->
+  exists e', a = b ++ e' /\ index_op sub e' = Some j.
+Proof. exact sub_toggle_addr. Qed.
+
+(* regression witness: before the commit "fix: the enabling port inside a disabled
+   enumerated sub-tree ..." that address was collapsePath(buffer ++ "../" ++ value):
+   for arr#3/ (enabled by arr#3/tg) skipped at /arr1/ it was /arr#3/tg - an address
+   nothing dispatches; repaired: /arr1/tg.  Replayed: corpus/C09/defects.txt *)
+Theorem C09_enabled_inside_enumerated_pinned_refuted :
+  sub_toggle_pinned en_port [47;97;114;114;49;47] = Some (0%nat, [47;97;114;114;35;51;47;116;103]) /\
+  sub_toggle en_port [47;97;114;114;49;47] = Some (0%nat, [47;97;114;114;49;47;116;103]).
+Proof. exact enabled_inside_enumerated_pinned_refuted. Qed.
 
 (* regression witness: walk_ports_recurse0 before the "fix:" commit wrote a '/'
    behind every index, so the sub-tree name a#2b/ was walked as /a0/b/, /a1/b/
